@@ -7,7 +7,7 @@ id=$1; sd=$2; dest=$3; run=$4; pkg=$5
 export GOFLAGS=-mod=mod GOPROXY=off GOSUMDB=off GOTOOLCHAIN=local
 export GIT_CONFIG_COUNT=1 GIT_CONFIG_KEY_0=init.defaultBranch GIT_CONFIG_VALUE_0=master
 wt=/tmp/cf/$id; rm -rf $wt; mkdir -p /tmp/cf
-git -C /repo worktree add -q --detach $wt 0bace51 || exit 2
+git -C /repo worktree add -q --detach $wt ${BASE:-0bace51} || exit 2
 log=$sd/confirm.log; : > $log
 cd $wt
 cp $sd/${DEMO:-demo_test.go} $wt/$dest
